@@ -709,6 +709,12 @@ class CodeGen:
                 # TODO: the case of speculation in bool_expr_branch can
                 #  be optimized, especially eg: if (f() ?? true) {}
                 end_speculation = self.add_label('end_speculation')
+                # r_out may be the storage of the global variable being
+                # assigned to.  The left operand must not observe the
+                # right operand's value there, so use a register.
+                if r_out not in {self.r0, self.r1, self.r2}:
+                    r_out = self.r2
+                    result = asm.State(r_out)
                 right_bubble = yield from self.eval_expr(r_out, expr.right, keep=True)
                 yield from right_bubble.value.to(r_out)
                 yield asm.Jump(end_speculation)
